@@ -89,13 +89,13 @@ func genPeer(t *rapid.T, kind int, label string) PeerSpec {
 }
 
 func gen(t *rapid.T) Case {
-	maxPieces, maxLeech := 48, 3
+	maxPieces, maxLeech := 96, 3
 	if thorough() {
-		maxPieces, maxLeech = 160, 4
+		maxPieces, maxLeech = 200, 4
 	}
 	c := Case{BlobSeed: rapid.Uint32().Draw(t, "blob_seed")}
 	c.PieceLen = rapid.OneOf(rapid.IntRange(1, 64), rapid.IntRange(1, 8192), rapid.SampledFrom([]int{1, 2, 4096, 8192})).Draw(t, "piece_len")
-	np := rapid.OneOf(rapid.IntRange(1, 8), rapid.IntRange(1, maxPieces)).Draw(t, "num_pieces")
+	np := rapid.OneOf(rapid.IntRange(1, 3), rapid.IntRange(4, 24), rapid.IntRange(4, maxPieces), rapid.IntRange(4, maxPieces)).Draw(t, "num_pieces")
 	for (np-1)*c.PieceLen+1 > 64*1024 {
 		np--
 	}
@@ -112,9 +112,18 @@ func gen(t *rapid.T) Case {
 	first := genPeer(t, rapid.SampledFrom([]int{kindOrigin, kindSeeder}).Draw(t, "seeder0_kind"), "p0_")
 	first.JoinMs = 0
 	c.Peers = append(c.Peers, first)
-	if rapid.IntRange(0, 2).Draw(t, "second_seeder") == 0 {
-		c.Peers = append(c.Peers, genPeer(t, rapid.SampledFrom([]int{kindOrigin, kindSeeder}).Draw(t, "seeder1_kind"), "p1_"))
+	// Fault plan first, because a corrupting seeder must exist to be chosen.
+	hasCorrupt := rapid.IntRange(0, 9).Draw(t, "has_corrupt") < 6
+	corruptSeeder := hasCorrupt && rapid.IntRange(0, 9).Draw(t, "corrupt_is_seeder") < 7
+	if corruptSeeder || rapid.IntRange(0, 2).Draw(t, "second_seeder") == 0 {
+		s := genPeer(t, rapid.SampledFrom([]int{kindOrigin, kindSeeder}).Draw(t, "seeder1_kind"), "p1_")
+		if corruptSeeder {
+			// A corrupting seeder that nobody talks to is an uninteresting case: let it be there early.
+			s.JoinMs = rapid.SampledFrom([]int{0, 0, 0, 5, 30}).Draw(t, "p1_corrupt_join_ms")
+		}
+		c.Peers = append(c.Peers, s)
 	}
+	firstLeech := len(c.Peers)
 	nl := rapid.IntRange(1, maxLeech).Draw(t, "leechers")
 	for i := 0; i < nl; i++ {
 		c.Peers = append(c.Peers, genPeer(t, kindLeech, fmt.Sprintf("l%d_", i)))
@@ -122,8 +131,17 @@ func gen(t *rapid.T) Case {
 	n := len(c.Peers)
 
 	c.Corrupt, c.CorruptMod = -1, 1
-	if rapid.IntRange(0, 9).Draw(t, "has_corrupt") < 6 {
-		c.Corrupt = rapid.IntRange(1, n-1).Draw(t, "corrupt")
+	if hasCorrupt {
+		if corruptSeeder {
+			c.Corrupt = 1
+		} else {
+			// A corrupting leecher: it can only serve what it has, so it starts with part of the blob and early.
+			c.Corrupt = rapid.IntRange(firstLeech, n-1).Draw(t, "corrupt")
+			lp := &c.Peers[c.Corrupt]
+			lp.HaveMod = rapid.SampledFrom([]int{2, 2, 3}).Draw(t, "corrupt_have_mod")
+			lp.HaveRem = rapid.IntRange(0, lp.HaveMod-1).Draw(t, "corrupt_have_rem")
+			lp.JoinMs = rapid.SampledFrom([]int{0, 0, 5}).Draw(t, "corrupt_join_ms")
+		}
 		c.CorruptMod = rapid.SampledFrom([]int{1, 1, 2, 3}).Draw(t, "corrupt_mod")
 		c.CorruptRem = rapid.IntRange(0, c.CorruptMod-1).Draw(t, "corrupt_rem")
 		c.CorruptFirstN = rapid.SampledFrom([]int{0, 0, 0, 1, 3}).Draw(t, "corrupt_first_n")
@@ -131,8 +149,8 @@ func gen(t *rapid.T) Case {
 	c.Depart = -1
 	if rapid.IntRange(0, 9).Draw(t, "has_depart") < 5 {
 		c.Depart = rapid.IntRange(1, n-1).Draw(t, "depart")
-		c.DepartAfterPieces = rapid.IntRange(0, np).Draw(t, "depart_after_pieces")
-		c.DepartMaxMs = rapid.SampledFrom([]int{0, 10, 50, 200, 600}).Draw(t, "depart_max_ms")
+		c.DepartAfterPieces = rapid.IntRange(0, (np+1)/2).Draw(t, "depart_after_pieces")
+		c.DepartMaxMs = rapid.SampledFrom([]int{0, 5, 20, 50, 150}).Draw(t, "depart_max_ms")
 	}
 	c.AnnounceMs = rapid.SampledFrom([]int{20, 50, 100}).Draw(t, "announce_ms")
 	c.PreemptMs = rapid.SampledFrom([]int{30, 100}).Draw(t, "preempt_ms")
